@@ -156,7 +156,7 @@ impl Gen {
         let mut dn = 0;
         let rs = scen::redirs_text(&json!(list), &mut bodies, &mut dn);
         if kind == "function" {
-            out.push_str(&format!("f{l}() {{ obs {tag} {marks}; return {bst}; }}\n"));
+            out.push_str(&format!("fn{l}() {{ obs {tag} {marks}; return {bst}; }}\n"));
         }
         out.push_str(&format!("obs b{l}\n"));
         let body = format!("obs {tag}={bst} {marks}");
@@ -171,10 +171,10 @@ impl Gen {
                 3 => format!("for q in 1; do {body}; done {rs}"),
                 _ => format!("case x in x) {body};; esac {rs}"),
             },
-            "function" => format!("f{l} {rs}"),
+            "function" => format!("fn{l} {rs}"),
             // the other special built-in that runs commands: `.` reads them from a
             // file, which the shell keeps open on a descriptor of its own meanwhile
-            "special" if self.rng.gen_bool(0.5) => {
+            "special" if self.lim == NO_LIMIT && self.rng.gen_bool(0.5) => {
                 self.dots.push((format!("/tmp/dot{l}"), format!("{body}\n")));
                 format!(". /tmp/dot{l} {rs}")
             }
@@ -214,7 +214,7 @@ impl Gen {
                 out.push_str(&format!("obs b{l}\n(\n{inner}) {rs}\n{bodies}obs a{l}\n"));
             }
             _ => {
-                out.push_str(&format!("g{l}() {{\n{inner}}}\nobs b{l}\ng{l} {rs}\n{bodies}obs a{l}\n"));
+                out.push_str(&format!("gn{l}() {{\n{inner}}}\nobs b{l}\ngn{l} {rs}\n{bodies}obs a{l}\n"));
             }
         }
         let idx = self.metas.len();
